@@ -562,6 +562,22 @@ save_expansion(Expansion &expansion, const string &exp, const vector_string &par
         paste = false;
         last = p;
       }
+    } else if (exp[p] == '"' ||
+               (exp[p] == '\'' && (p == 0 || !isalnum(exp[p - 1])))) {
+      // A string or character literal.  Parameter names are not replaced
+      // inside it.
+      char quote = exp[p];
+      ++p;
+      while (p < exp.size() && exp[p] != quote) {
+        if (exp[p] == '\\' && p + 1 < exp.size()) {
+          ++p;
+        }
+        ++p;
+      }
+      if (p < exp.size()) {
+        ++p;
+      }
+
     } else if (exp[p] == '#') {
       // This may be a stringification operator.
       if (last != p) {
